@@ -344,6 +344,30 @@ func (m *Machine) rtIntrinsic(name string, fn *ssa.Function, args []Value, k fun
 		id := m.constInt(args[2], "assert id")
 		m.assertSameLogs(a, b, id)
 		k(nil)
+	case "AssertDepths":
+		// DEPTH events (tag 8) of a log: mode 0 = all equal from the 2nd sample on,
+		// mode 1 = constant increments from the 2nd increment on. Depths are concrete.
+		lg := m.constInt(args[0], "log id")
+		mode := m.constInt(args[1], "mode")
+		id := m.constInt(args[2], "assert id")
+		var ds []int64
+		for _, e := range m.logs[lg] {
+			if e.Tag == 8 && len(e.Terms) == 1 && e.Terms[0].IsConst() {
+				ds = append(ds, int64(e.Terms[0].cval))
+			}
+		}
+		ok := true
+		if mode == 0 {
+			for j := 2; j < len(ds); j++ {
+				ok = ok && ds[j] == ds[1]
+			}
+		} else {
+			for j := 3; j < len(ds); j++ {
+				ok = ok && ds[j]-ds[j-1] == ds[2]-ds[1]
+			}
+		}
+		m.checkAssertMsg(m.tt.Bool(ok), id, fmt.Sprintf("depth samples %v", ds))
+		k(nil)
 	case "AssertDisjointFootprints":
 		id := m.constInt(args[0], "assert id")
 		if bad := m.footprintConflicts(); len(bad) > 0 {
@@ -467,6 +491,20 @@ func (m *Machine) recordFailure(id int, kind, msg string, model map[string]uint6
 		AssertID: id, Kind: kind, Msg: msg, Model: model, Logs: m.renderLogs(model),
 		Decision: append([]int{}, m.decided...),
 	})
+}
+
+// checkAssertMsg is checkAssert for concrete conditions that must not end the path.
+func (m *Machine) checkAssertMsg(c *Term, id int, msg string) {
+	if c.IsConst() && c.cval == 1 {
+		m.assertsProved++
+		return
+	}
+	r, model := m.model(m.pathVars)
+	if r == Sat {
+		m.recordFailure(id, "assert", msg, model)
+	} else {
+		m.inconclusive = append(m.inconclusive, fmt.Sprintf("assert %d fails but no model", id))
+	}
 }
 
 // checkAssert queries PC ∧ ¬c.
